@@ -7,6 +7,10 @@ CONSTANTS
   MaxDstFrag = 2
   MaxQ = 0
   Ops = {}
+  EmptyBases = {"slice"}
+  ForeignBytes = {0}
+  ArrKinds = {"roomy"}
+  MaxFail = 0
   Heads <- HeadsV
   UOps = {"histpush"}
 VIEW UView
